@@ -30,6 +30,8 @@ def scenarios(tier: str) -> Dict[str, List[Dict[str, Any]]]:
         "disconnect-early": [ep("A", "B", 0, False, c, s("a1"), d), ep("B", "A", 0, False, c, r, nb)],
         "send-after-peer-left": [ep("A", "B", 0, False, c, s("a1"), s("a2")), ep("B", "A", 0, False, c, nb, d)],
         "nonblocking-poll": [ep("A", "B", 0, False, c, s("a1")), ep("B", "A", 0, False, c, nb, nb, nb)],
+        # both endpoints deliver through callbacks and both send at the same time
+        "callbacks-both-send": [ep("A", "B", 0, True, c, s("a1"), s("a2")), ep("B", "A", 0, True, c, s("b1"), s("b2"))],
     }
     if tier == "thorough":
         S["two-socket-ids"] = [ep("A", "B", 0, False, c, s("x")), ep("B", "A", 0, False, c, r),
@@ -61,6 +63,11 @@ def explore_only() -> Dict[str, List[Dict[str, Any]]]:
         # ping-pong: B answers every message from inside its receive callback; whichever side starts first
         "callback-answers": [ep("A", "B", 0, False, c, s("ping"), r), ep("B", "A", 0, "answer", c)],
         "callback-answers-two": [ep("A", "B", 0, False, c, s("p1"), s("p2"), r, r), ep("B", "A", 0, "answer", c)],
+        # the other public entry points of a socket (silent, structured): the same channel operations
+        "silent-entry-points": [dict(ep("A", "B", 0, False, c, s("a1"), s("a2"), ["recvnb", None]), api="silent"),
+                                dict(ep("B", "A", 0, False, c, ["recvnb", None], r, ["recvnb", None]), api="silent")],
+        "structured-entry-points": [dict(ep("A", "B", 0, False, c, s("a1"), ["recvnb", None]), api="structured"),
+                                    dict(ep("B", "A", 0, False, c, r, ["recvnb", None]), api="structured")],
         # a broadcast channel (one socket per remote behind one receive): per remote, messages come out in sending order
         "broadcast-receive": [dict(ep("A", "B", 0, False, ["bconnect", None], ["brecv", None], ["brecv", None], ["brecv", None]), remotes=["B", "C"]),
                               ep("B", "A", 0, False, c, s("b1")), ep("C", "A", 0, False, c, s("c1"), s("c2"))],
